@@ -117,3 +117,13 @@ Proof.
   unfold stream_assignment. split; [apply map_fst_combine | apply map_snd_combine];
     rewrite map_length, seq_length; reflexivity.
 Qed.
+
+(* the stream assignment and the input order determine each other: two runs use the random stream the same way
+   exactly when inputs() lists the variables in the same order *)
+Lemma stream_iff_order : forall (o1 o2 : list var) n,
+  stream_assignment o1 n = stream_assignment o2 n <-> o1 = o2.
+Proof.
+  intros o1 o2 n. split; [|intros ->; reflexivity].
+  intros H. apply (f_equal (map fst)) in H.
+  rewrite (proj1 (stream_positions o1 n)), (proj1 (stream_positions o2 n)) in H. exact H.
+Qed.
